@@ -97,60 +97,11 @@ ASSUMPTIONS = {
         "trusted base: the fakes in /verif/fakes (HMAC key registry with unforgeable signatures, block/validator model, membership, recording storage wrapper, virtual election scheduler), the reference model in /verif/ref, the Go runtime and pgregory.net/rapid",
         "exploration only: 'held on everything explored', never absence of violations",
     ],
-    "C02": [
-        dict(test="TestC02", quick=(25000, 8), thorough=(600000, 8), timeout_thorough=7200),
-        dict(test="FuzzC02", kind="fuzz", fuzztime=240),
-    ],
-    "C03": [dict(test="TestC03", quick=(2500, 16), thorough=(60000, 16), timeout_thorough=7200)],
-    "C04": [dict(test="TestC04", quick=(2500, 16), thorough=(60000, 16), timeout_thorough=7200)],
-    "C05": [dict(test="TestC05", quick=(1500, 16), thorough=(30000, 16), timeout_thorough=7200)],
-    "C07": [
-        dict(test="TestC07N", quick=(6000, 8), thorough=(150000, 8), timeout_thorough=7200),
-        dict(test="TestC07S", quick=(2000, 8), thorough=(40000, 8), timeout_thorough=7200),
-    ],
-    "C08": [
-        dict(test="TestC08N", quick=(6000, 8), thorough=(150000, 8), timeout_thorough=7200),
-        dict(test="TestC08S", quick=(2000, 8), thorough=(40000, 8), timeout_thorough=7200),
-    ],
-    "C09": [
-        dict(test="TestC09N", quick=(5000, 8), thorough=(100000, 8), timeout_thorough=7200),
-        dict(test="TestC09S", quick=(2000, 8), thorough=(40000, 8), timeout_thorough=7200),
-    ],
-    "C11": [dict(test="TestC11", quick=(2500, 16), thorough=(50000, 16), timeout_thorough=7200)],
-    "C10": [dict(test="TestC10", quick=(2500, 16), thorough=(60000, 16), timeout_thorough=7200)],
-    "C12": [
-        dict(test="TestC12N", quick=(4000, 8), thorough=(150000, 8), timeout_thorough=7200),
-        dict(test="TestC12R", quick=(100, 8), thorough=(1500, 8), race=True, timeout=1500, timeout_thorough=7200),
-        dict(test="FuzzC12", kind="fuzz", fuzztime=300),
-    ],
-    "C13": [
-        dict(test="TestC13R", quick=(120, 10), thorough=(2500, 8), race=True, timeout=1500, timeout_thorough=7200),
-        dict(test="TestC13S", quick=(2000, 6), thorough=(40000, 8), timeout_thorough=7200),
-    ],
-    "C14": [dict(test="TestC14R", quick=(150, 16), thorough=(2500, 16), race=True, timeout=1500, timeout_thorough=7200)],
-    "C15": [
-        dict(test="TestC15Exhaustive", kind="plain", quick=(0, 1), thorough=(0, 1), timeout_thorough=3600),
-        dict(test="TestC15Registry", quick=(20000, 3), thorough=(400000, 4)),
-        dict(test="TestC15R", quick=(120, 12), thorough=(2500, 12), race=True, timeout=1500, timeout_thorough=7200),
-    ],
-    "C17": [
-        dict(test="TestC17Exhaustive", kind="plain", quick=(0, 1), thorough=(0, 1), timeout_thorough=3600),
-        dict(test="TestC17Random", quick=(15000, 8), thorough=(400000, 8)),
-    ],
-    "C19": [
-        dict(test="TestC19FormulaDense", kind="plain", quick=(0, 1), thorough=(0, 1)),
-        dict(test="TestC19Formula", quick=(30000, 2), thorough=(1000000, 4)),
-        dict(test="TestC19Trigger", quick=(25, 8), thorough=(600, 8), timeout=1500, timeout_thorough=7200),
-        dict(test="TestC19Node", quick=(8, 4), thorough=(150, 4), timeout=1500, timeout_thorough=7200),
-    ],
-    "C20": [
-        dict(test="TestC20", quick=(6000, 16), thorough=(200000, 16), timeout_thorough=7200),
-        dict(test="FuzzC20", kind="fuzz", fuzztime=180),
-    ],
-    "C16": [dict(test="TestC16R", quick=(120, 16), thorough=(2000, 16), race=True, timeout=1500, timeout_thorough=7200)],
-    "C18": [
-        dict(test="TestC18Dense", kind="plain", quick=(0, 1), thorough=(0, 1)),
-        dict(test="TestC18Leader", quick=(30000, 4), thorough=(1500000, 8)),
-    ],
+    "C05": ["liveness is decided as a bound on timer firings under FIFO zero-latency suffixes in virtual time; other fair schedules are not covered"],
     "C06": ["committee ids pairwise distinct and total weight < 2^64 (the property's own quantifier); the attainability law is checked for W >= 1"],
+    "C13": ["the Go scheduler is not controlled: interleavings strictly inside the library are sampled; the invariants checked are interleaving-independent"],
+    "C14": ["quiescence detector (/verif/rt) parses runtime.Stack output; a deadline hit is inconclusive, never a violation"],
+    "C15": ["election triggers are generated only for the current or older positions (what the node's own timer can produce)"],
+    "C16": ["cancellation points are op boundaries plus scheduler timing, not every instruction"],
+    "C19": ["real-timer part depends on OS timer and scheduler: only lower bounds and counting rules are exact; liveness misses count only when repeated three times"],
 }
